@@ -35,7 +35,7 @@ func init() {
 			}
 			return []runner.Phase{
 				{Name: "box", Variant: "plain", Cases: c10boxCount(), Run: c10box, Required: []string{"nts_cases", "simple_cases", "picks"}},
-				{Name: "random", Variant: "plain", Cases: n, Run: c10random, Required: []string{"nts_cases", "simple_cases", "vnode_rings", "unknown_dc_keyspaces", "lookups", "picks", "hashed_murmur_rings", "policy_host_removed", "policy_keyspace_change_overlaps_ring_change", "second_keyspaces"}},
+				{Name: "random", Variant: "plain", Cases: n, Run: c10random, Required: []string{"nts_cases", "simple_cases", "vnode_rings", "unknown_dc_keyspaces", "lookups", "picks", "hashed_murmur_rings", "policy_host_removed", "policy_keyspace_change_overlaps_ring_change", "second_keyspaces", "policy_ring_change_without_keyspace_description", "lookups_without_keyspace_description"}},
 			}
 		},
 	})
@@ -223,13 +223,75 @@ func c10check(c *runner.Ctx, cfg *c10cfg, probes []int64) {
 		// nodes leaving and coming back
 		part := "org.apache.cassandra.dht." + cfg.partitioner
 		slowMeta := int32(0)
+		failMeta := int32(0)
 		gocql.VerifInitTokenAware(pol, "ks", func(string) (*gocql.KeyspaceMetadata, error) {
 			if atomic.LoadInt32(&slowMeta) == 1 {
 				time.Sleep(150 * time.Microsecond) // the schema query a KeyspaceChanged has to wait for
 			}
+			if atomic.LoadInt32(&failMeta) == 1 {
+				return nil, fmt.Errorf("keyspace description not available (control connection down)")
+			}
 			return ks, nil
 		})
-		switch order := int(runner.H(cfg.String()) % 7); order {
+		switch order := int(runner.H(cfg.String()) % 8); order {
+		case 7:
+			// the keyspace description cannot be read (control connection being re-established) while the ring changes:
+			// until it can be read again the policy has no placement for the keyspace - it may answer with the owner of the
+			// range alone, but not with the placement of the ring that no longer exists
+			if len(hosts) < 2 {
+				for _, h := range hosts {
+					pol.AddHost(h)
+				}
+				pol.SetPartitioner(part)
+				pol.KeyspaceChanged(gocql.KeyspaceUpdateEvent{Keyspace: "ks"})
+				break
+			}
+			pol.SetPartitioner(part)
+			cut := 1 + len(hosts)/2
+			if cut >= len(hosts) {
+				cut = len(hosts) - 1
+			}
+			for _, h := range hosts[:cut] {
+				pol.AddHost(h)
+			}
+			pol.KeyspaceChanged(gocql.KeyspaceUpdateEvent{Keyspace: "ks"})
+			atomic.StoreInt32(&failMeta, 1)
+			for _, h := range hosts[cut:] {
+				pol.AddHost(h)
+			}
+			if len(hosts)%3 == 0 {
+				// ... and a node leaves and comes back meanwhile
+				pol.RemoveHost(hosts[0])
+				pol.AddHost(hosts[0])
+			}
+			c.Add("policy_ring_change_without_keyspace_description", 1)
+			for _, p := range probes {
+				i := ring.Index(big.NewInt(p))
+				exp, okx := expected(i)
+				if !okx {
+					continue
+				}
+				hs, _ := gocql.VerifTokenAwareReplicas(pol, "ks", c10tokStr(cfg.partitioner, p))
+				var ids []string
+				for _, h := range hs {
+					ids = append(ids, h.HostID())
+				}
+				c.Add("lookups_without_keyspace_description", 1)
+				if len(ids) > 0 && !(len(ids) == 1 && ids[0] == ring.Owner(i).ID) {
+					if bad := c10compare(cfg.simple, ids, exp, ring.Owner(i), nodesN, cfg); bad != "" {
+						c.Violation(fmt.Sprintf("C10:%s:stale-placement:%s:%s", class, strings.SplitN(bad, ":", 2)[0], vn), "after the ring changed while the keyspace could not be described, the replicas kept for a token are neither Cassandra's placement on the current ring nor absent: "+bad, wit(fmt.Sprintf("lookup %d: driver %v, Cassandra %v (owner %s)", p, ids, nodeIDs(exp), ring.Owner(i).ID)))
+					}
+				}
+				if key := cfg.keyFor(p); key != nil {
+					seq, _, _ := drain(pol.Pick(gocql.VerifNewQuery("ks", key)), 4*len(hosts)+8)
+					if len(seq) > 0 && seq[0].HostID() != ring.Owner(i).ID {
+						c.Violation(fmt.Sprintf("C10:%s:stale-placement:pick:%s", class, vn), fmt.Sprintf("after the ring changed while the keyspace could not be described, the policy offers %s first for a key whose range is owned by %s", seq[0].HostID(), ring.Owner(i).ID), wit(fmt.Sprintf("routing key %x (token %d)", key, p)))
+					}
+				}
+			}
+			// the description is readable again and a schema event arrives: the placement is the current ring's
+			atomic.StoreInt32(&failMeta, 0)
+			pol.KeyspaceChanged(gocql.KeyspaceUpdateEvent{Keyspace: "ks"})
 		case 5:
 			// a node that is not part of this ring (the only member of a rack of its own) was known and has been
 			// removed again: what is left must be exactly this ring's placement
